@@ -611,6 +611,10 @@ class Client:
         :param authmech: prefered authenticate mechanism
         :rtype: boolean
         """
+        # nothing learnt from a previous connection applies to the new one
+        self.authenticated = False
+        self.__capabilities = {}
+        self.__read_buffer = b""
         try:
             self.sock = socket.create_connection((self.srvaddr, self.srvport))
             self.sock.settimeout(Client.read_timeout)
